@@ -178,6 +178,16 @@ def shared_levels(con, interval_type, grid):
     return min(g[1] for g in groups.values() if len(g[0]) == most)
 
 
+def nothing_to_assemble(repo, data, grid, kind, cli=False):
+    """True when, by the independent oracle, no grid level is shared by two intervals of the step `kind`: the step
+    then has nothing to align and refuses; the master-curve properties say nothing about such a dataset."""
+    try:
+        pre = workflow(repo, data, grid, cli=cli, steps=())
+    except Exception:
+        return False
+    return shared_levels(pre, "storm" if kind == "rise" else "interstorm", grid) == 0
+
+
 def run_C06(repo, tier, seed):
     ev = 0
     uninformative = 0
@@ -345,6 +355,8 @@ def run_C09(repo, tier, seed):
             try:
                 con = workflow(repo, data, grid, steps=(kind,))
             except Exception as e:
+                if nothing_to_assemble(repo, data, grid, kind):
+                    continue
                 tb = traceback.extract_tb(e.__traceback__)[-1]
                 failures.append({"key": "raised-noref", "input": {"step": kind, "grid_step_mm": grid}, "observed": "%s: %s (%s:%d)" % (type(e).__name__, e, tb.name, tb.lineno)})
                 continue
@@ -411,6 +423,8 @@ def run_C13(repo, tier, seed):
             try:
                 con = workflow(repo, data, grid)
             except Exception as e:
+                if nothing_to_assemble(repo, data, grid, "rise") or nothing_to_assemble(repo, data, grid, "recession"):
+                    continue
                 tb = traceback.extract_tb(e.__traceback__)[-1]
                 failures.append({"key": "raised-" + type(e).__name__, "input": case, "observed": "%s: %s (%s:%d)" % (type(e).__name__, e, tb.name, tb.lineno)})
                 continue
